@@ -107,7 +107,8 @@ def close(a: torch.Tensor, b: torch.Tensor, tol: float) -> bool:
 def pick_cfgs(rng: random.Random, n: int) -> List[Dict[str, Any]]:
     """One float64 configuration for every (op, discrete hyper-parameter variant) -- a tracing branch typically drops or
     mis-forwards ONE non-default argument -- plus random extras in the other dtypes up to n."""
-    allc = [c for c in ops.configs(rng, "quick") if "dtype" not in c and not (c["op"] == "dropout" and c["p"] > 0 and c["training"])]
+    allc = [c for c in ops.configs(rng, "quick") if "dtype" not in c and not (c["op"] == "dropout" and c["p"] > 0 and c["training"])
+            and not (c["op"] == "scaled_dot_product_attention" and c.get("dropout_p"))]
     # dropout with p>0 in training mode: eager and compiled RNG streams differ by design of torch
     def variant(c):
         return (c["op"], c.get("approximate"), c.get("is_causal"), c.get("mask"), c.get("reduction"), c.get("affine"), c.get("training"),
@@ -377,7 +378,7 @@ def run(rep: Report, tier: str) -> None:
     rep.extra["fx_symbolic_trace_not_applicable"] = skipped_fx
     rep.rule = "a slice of the C01/C02 configurations (every op, dtypes f64/f32/bf16) x modes {eager, aot_eager, (thorough) inductor, leaf tracer, fx forward} + compositions of 2-6 ops/modules; non-trivial = all"
     rep.sample({"cfg": cfgs[0], "modes": modes + ["leaf_tracer", "fx_forward"]})
-    rep.assumptions += ["dropout with p>0 in training mode is excluded (eager and compiled RNG streams differ in torch itself)", "ops that are not symbolically traceable by plain torch.fx are skipped for the fx clause and counted"]
+    rep.assumptions += ["dropout with p>0 in training mode and attention with dropout_p>0 are excluded (eager and compiled RNG streams differ in torch itself)", "ops that are not symbolically traceable by plain torch.fx are skipped for the fx clause and counted"]
 
 
 def replay(rep: Report, path: str) -> None:
